@@ -484,6 +484,15 @@ class EffectAnalysis:
                     self._link(owner, ov, held, env, tag="k")
             return FRESH
         targets, how = self._resolve(fn, selfcls, c, tenv)
+        if not targets and isinstance(c.func, ast.Attribute) and name in ("append", "extend", "insert", "add", "appendleft") and isinstance(c.func.value, ast.Name):
+            # a local container now holds the arguments
+            held: frozenset = E
+            for o in arg_v:
+                held |= o.down()
+            if held:
+                cur = env.get(c.func.value.id, FRESH)
+                env[c.func.value.id] = Val(cur.B, cur.R | frozenset(("any", r) for r in held))
+            return FRESH
         if not targets:
             # unknown callee: the result may be (an element of) anything passed in
             return all_v.nav("?")
